@@ -500,37 +500,29 @@ def batches(rng, tier):
     yield Batch("utf8-malformed", ops, note="truncated sequences, overlong forms, surrogates, values beyond U+10FFFF, stray bytes, embedded NULs: model = code; the rule 'a result is the complete conversion' is checked against an oracle by extra_checks")
 
 
-def extra_checks(binp, rng, tier, ev):
-    """The property on ill-formed input, independent of the model: whatever narrow/widen return is either the complete
-    conversion (by this file's own strict 31-bit UTF-8 coder) or a failure."""
-    from vlib.runner import run_harness
-    if binp is None:
-        return []
-    r = rng.fork("utf8-rule")
-    n = 8000 if tier == "thorough" else 1500
-    ops, want = [], []
-    for _ in range(n):
-        if r.chance(3, 4):
-            bs = malformed_bytes(r)
-            ops.append("widen " + hexs(bs)); want.append(expected_widen(bs))
-        else:
-            cs = malformed_wide(r)
-            ops.append("narrow " + whx(cs)); want.append(expected_narrow(cs))
-    for bs in ([0x61, 0xC3], [0xC3], [0x61, 0x62, 0xE2, 0x82], [0xC3, 0x00, 0xA4], [0xE2, 0x82, 0x00, 0xAC], [0xC3, 0x00]):
-        ops.append("widen " + hexs(bs)); want.append(expected_widen(bs))
-    lines, deaths = run_harness(binp, ops)
-    viol = []
-    bad = 0
-    for op, w, got in zip(ops, want, lines):
-        if got in ("NOT-RUN", "SKIPPED-AFTER-DEATH", None) or got == w:
+_SEEN = {"known_class": 0}
+
+
+def dec31_carry(bs):
+    """what libstdc++'s do_in on top of glibc computes: like dec31, but a NUL byte is passed through as U+0000 without
+    looking at the bytes of an incomplete sequence collected so far, which are completed behind it (the known finding)"""
+    out, pend = [], []
+    for b in bs:
+        if b == 0:
+            out.append(0)
             continue
-        bad += 1
-        if len(viol) < 3:
-            viol.append({"kind": "input", "batch": "utf8-rule", "batch_kind": "stateless", "ops": [op], "expected": [w], "observed": [got],
-                         "what": f"{op.split()[0]} returned something that is neither the complete conversion nor a failure: {op!r} -> {got!r}, expected {w!r}"})
-    ev["coverage"]["utf8_rule"] = {"ops": len(ops), "not_complete_or_failure": bad,
-                                   "rule": "result of widen_locale/narrow_locale in C.utf8 == strict conversion by the plugin's own coder, 'exc'/'none' iff ill-formed"}
-    return viol
+        pend.append(b)
+        b0 = pend[0]
+        n = 1 if b0 < 0x80 else 2 if 0xC2 <= b0 < 0xE0 else 3 if 0xE0 <= b0 < 0xF0 else 4 if 0xF0 <= b0 < 0xF8 else 5 if 0xF8 <= b0 < 0xFC else 6 if 0xFC <= b0 < 0xFE else 0
+        if n == 0 or any(x & 0xC0 != 0x80 for x in pend[1:]):
+            return None
+        if len(pend) == n:
+            d = dec31(pend)
+            if d is None:
+                return None
+            out += d
+            pend = []
+    return None if pend else out
 
 
 def nul_after_incomplete(bs):
@@ -548,20 +540,78 @@ def nul_after_incomplete(bs):
     return False
 
 
-def classify(violation, findings):
-    """Only 'widen accepts an incomplete sequence that is followed by a NUL byte' is the (possible) known finding."""
-    if violation.get("kind") != "input" or violation.get("batch") != "utf8-rule" or not violation.get("ops"):
-        return None
-    t = violation["ops"][-1].split()
-    if t[0] != "widen" or t[1] == "-":
-        return None
+def is_known_class(op, observed):
+    """exactly the listed finding: widen of a text in which an incomplete sequence is directly followed by NUL byte(s) and
+    completed behind them, AND the result is precisely what carrying the state across the NUL gives (nothing else wrong)"""
+    t = op.split()
+    if len(t) != 2 or t[0] != "widen" or t[1] == "-":
+        return False
     bs = list(bytes.fromhex(t[1]))
-    if not nul_after_incomplete(bs):
-        return None
+    if not nul_after_incomplete(bs) or dec31(bs) is not None:
+        return False
+    d = dec31_carry(bs)
+    return d is not None and observed == "some " + whx(d)
+
+
+def extra_checks(binp, rng, tier, ev):
+    """The property on ill-formed input, independent of the model: whatever narrow/widen return is either the complete
+    conversion (by this file's own strict 31-bit UTF-8 coder) or a failure."""
+    from vlib.runner import run_harness
+    if binp is None:
+        return []
+    r = rng.fork("utf8-rule")
+    n = 8000 if tier == "thorough" else 1500
+    ops, want = [], []
+    for _ in range(n):
+        if r.chance(3, 4):
+            bs = malformed_bytes(r)
+            ops.append("widen " + hexs(bs)); want.append(expected_widen(bs))
+        else:
+            cs = malformed_wide(r)
+            ops.append("narrow " + whx(cs)); want.append(expected_narrow(cs))
+    for bs in ([0x61, 0xC3], [0xC3], [0x61, 0x62, 0xE2, 0x82], [0xC3, 0x00, 0xA4], [0xE2, 0x82, 0x00, 0xAC], [0xC3, 0x00],
+               [0xF0, 0x00, 0x9F, 0x00, 0x98, 0x00, 0x80], [0xC3, 0x00, 0x41], [0x61, 0x00, 0xA4]):
+        ops.append("widen " + hexs(bs)); want.append(expected_widen(bs))
+    lines, deaths = run_harness(binp, ops)
+    other, known = [], []
+    for op, w, got in zip(ops, want, lines):
+        if got in ("NOT-RUN", "SKIPPED-AFTER-DEATH", None) or got == w:
+            continue
+        v = {"kind": "input", "batch": "utf8-rule", "batch_kind": "stateless", "ops": [op], "expected": [w], "observed": [got],
+             "what": f"{op.split()[0]} returned something that is neither the complete conversion nor a failure: {op!r} -> {got!r}, expected {w!r}"}
+        (known if is_known_class(op, got) else other).append(v)
+    _SEEN["known_class"] = len(known)
+    ev["coverage"]["utf8_rule"] = {"ops": len(ops), "not_complete_or_failure": len(other) + len(known), "of_these_known_finding_class": len(known),
+                                   "rule": "result of widen_locale/narrow_locale in C.utf8 == strict conversion by the plugin's own coder, 'exc'/'none' iff ill-formed"}
+    # anything outside the listed class first: it must never be hidden behind the known finding
+    return other[:3] + known[:1]
+
+
+def _known_entry(findings):
     for f in findings:
-        if f.get("property") == "C15" and f.get("status") != "fixed" and "embedded NUL" in (f.get("site", "") + f.get("what", "")):
+        if f.get("property") == "C15" and f.get("status") == "known" and (f.get("match") or {}).get("kind") == "incomplete-sequence-before-embedded-nul":
             return f
     return None
+
+
+def classify(violation, findings):
+    """Only 'widen carries an incomplete sequence across an embedded NUL' is the known finding; every other result for
+    ill-formed input and every truncation stays a VIOLATION."""
+    if violation.get("kind") != "input" or violation.get("batch") != "utf8-rule" or not violation.get("ops"):
+        return None
+    obs = (violation.get("observed") or [""])[-1]
+    exp = (violation.get("expected") or [""])[-1]
+    if exp != "exc" or not is_known_class(violation["ops"][-1], obs):
+        return None
+    return _known_entry(findings)
+
+
+def known_finding_lines(findings, ev):
+    """the rule stream contains fixed witnesses of the class (c3 00 a4 ...), so every run exercises the finding"""
+    f = _known_entry(findings)
+    if f is not None and _SEEN["known_class"] > 0:
+        return [f["line"]]
+    return []
 
 
 MANIFEST = {
